@@ -43,13 +43,14 @@ FLOWIR_ONLY = {
 RULE = ('The component option table is derived at run time from FlowIR.type_flowir_component("full") + '
         'default_component_structure() (55 leaves today); for every option leaf every value of a fixed candidate pool '
         'that the leaf schema accepts, that differs from the default and that gives a valid workflow (literals of each '
-        'type, strings with blanks / = / : / ; / %%, None, lists, "%%(cvar)s" variable references; quick tier: the first '
+        'type, floats with 1..7 decimals, strings with blanks / = / : / ; / %%, None, lists, "%%(cvar)s" variable references; quick tier: the first '
         '6 literals + 2 variable references per option, thorough: all) is set (a) on the component, (b) in the global '
         'blueprint, (c) in the stage blueprint; plus all pairs of options inside one top-level section (2x2 values, '
         'thorough 3x3); plus every option under every backend of FlowIR.Backends (with the image a backend requires); '
         'plus families: variables (7 names x 20 values x 6 scopes incl. shadowing), environments (7 names x 15 bodies, '
         'pairs of environments, SANDBOX application-dependencies x virtualenvs), reference lists, component names, '
-        'status-report entries (10x10) and output entries, instances generated for a non-default platform (platform '
+        'status-report entries (10x10), stage-weight vectors that add up to one with 1..7 decimal digits over 2..4 '
+        'stages and FlowIR default weights for 2..8 stages, output entries, instances generated for a non-default platform (platform '
         'variables / environments / blueprint / override). Each document is written in two instance styles (all fields '
         'injected, as tests/test_dosini.py does / only the fields that are set, as DOSINIExperimentConfiguration does). '
         'Family e2e: a legacy package is authored on disk, DOSINIExperimentConfiguration(createInstanceFiles=True, '
@@ -159,6 +160,8 @@ def build(case):
         return G.names_doc(case['name'], case['both']), 'default'
     if fam == 'status':
         return G.status_doc(case['e0'], case['e1']), 'default'
+    if fam == 'weights':
+        return G.status_weights_doc(case['weights'], case['exe']), 'default'
     if fam == 'output':
         return G.output_doc([tuple(x) for x in case['entries']]), 'default'
     if fam == 'platform':
@@ -390,6 +393,9 @@ def fixed_cases():
     for e0 in G.STATUS_ENTRIES:
         for e1 in G.STATUS_ENTRIES:
             cases.append({'family': 'status', 'e0': e0, 'e1': e1})
+    for ws in G.STATUS_WEIGHT_VECTORS:
+        for exe in (False, True):
+            cases.append({'family': 'weights', 'weights': list(ws), 'exe': exe})
     for name in G.OUTPUT_NAMES:
         for e in G.OUTPUT_ENTRIES:
             cases.append({'family': 'output', 'entries': [[name, e]]})
